@@ -100,6 +100,12 @@ impl Numeric {
 
 impl PartialEq for Numeric {
     fn eq(&self, other: &Self) -> bool {
+        // In Sass, `1px == 1` is false (but `1px <= 1` is true).
+        if self.unit != other.unit
+            && (self.is_no_unit() || other.is_no_unit())
+        {
+            return false;
+        }
         self.partial_cmp(other) == Some(std::cmp::Ordering::Equal)
     }
 }
@@ -110,10 +116,7 @@ impl PartialOrd for Numeric {
         if self.unit == other.unit {
             self.value.partial_cmp(&other.value)
         } else if self.is_no_unit() || other.is_no_unit() {
-            match self.value.partial_cmp(&other.value) {
-                Some(std::cmp::Ordering::Equal) => None,
-                other => other,
-            }
+            self.value.partial_cmp(&other.value)
         } else if let Some(scaled) = other.as_unitset(&self.unit) {
             use std::cmp::Ordering::Equal;
             let result = self.value.partial_cmp(&scaled);
